@@ -88,12 +88,23 @@ def view (h : Heap) : Sexp :=
     Sexp.list [ofNat i, .atom (if isLocked h i then "L" else "U"), .atom flag, ofNats ps,
       .list ((entries.foldr insertSortedS []).map (·.2))]))
 
+/-- calls made through a view of node `i` (`_SubTensorDict`: sublock / subunlock; legacy lazy view: customlock / customunlock) -/
+def viewEv? (s : State) : Sexp → Option (State × Out)
+  | .list [.atom "sublock", i] => do let r := subLockEv s.heap (← asNat? i); pure ({ s with heap := r.1 }, r.2)
+  | .list [.atom "subunlock", i] => do let r := subUnlockEv s.heap (← asNat? i); pure ({ s with heap := r.1 }, r.2)
+  | .list [.atom "customlock", i] => do let r := customLockEv s.heap (← asNat? i); pure ({ s with heap := r.1 }, r.2)
+  | .list [.atom "customunlock", i] => do let r := customUnlockEv s.heap (← asNat? i); pure ({ s with heap := r.1 }, r.2)
+  | _ => none
+
 partial def runEvents (s : State) : List Sexp → List Sexp → Option (List Sexp)
   | [], acc => some acc.reverse
   | e :: rest, acc => do
-      let ev ← ev? e
-      let r := step s ev
-      runEvents r.1 rest (Sexp.list [.atom (outAtom r.2), view r.1.heap] :: acc)
+      match viewEv? s e with
+      | some r => runEvents r.1 rest (Sexp.list [.atom (outAtom r.2), view r.1.heap] :: acc)
+      | none =>
+        let ev ← ev? e
+        let r := step s ev
+        runEvents r.1 rest (Sexp.list [.atom (outAtom r.2), view r.1.heap] :: acc)
 
 def klassAtom : Gen.LockTable.Klass → String
   | .structural => "structural"
